@@ -136,57 +136,72 @@ fn as_value(d: &Doc) -> crate::transcode::Value<'static> {
 	}
 }
 
-/// I3: every two-call history of the TOML output (either entry point each time).
-#[kani::proof]
-#[kani::unwind(6)]
-fn i3_toml_output() {
-	let mut w = LogW::new();
-	w.fail_at = kani::any();
-	let d1 = any_doc();
-	let d2 = any_doc();
-	let via1: bool = kani::any();
-	let via2: bool = kani::any();
-	kani::assume(!via1 || d1.root != 5);
-	kani::assume(!via2 || d2.root != 5);
-	let pulled1 = Cell::new(0u32);
-	let pulled2 = Cell::new(0u32);
-	let mut out = Output::new(&mut w);
-	let r1 = if via1 {
-		let v = as_value(&d1);
-		let r = crate::Output::transcode_value(&mut out, &v);
+fn run_one<'a>(out: &mut Output<&'a mut LogW>, d: &Doc, via_value: bool, pulled: &Cell<u32>) -> bool {
+	let r = if via_value {
+		let v = as_value(d);
+		let r = crate::Output::transcode_value(out, &v);
 		core::mem::forget(v);
 		r
 	} else {
-		crate::Output::transcode_from(&mut out, DocDe { d: d1, pulled: &pulled1 })
+		crate::Output::transcode_from(out, DocDe { d: *d, pulled })
 	};
+	let ok = r.is_ok();
+	core::mem::forget(r);
+	ok
+}
+
+/// I3a: the FIRST document, every root type, null at any entry, either entry point, writer fault anywhere.
+#[kani::proof]
+#[kani::unwind(5)]
+fn i3_toml_output_first() {
+	let mut w = LogW::new();
+	w.fail_at = kani::any();
+	let d1 = any_doc();
+	let via1: bool = kani::any();
+	kani::assume(!via1 || d1.root != 5);
+	let pulled1 = Cell::new(0u32);
+	let mut out = Output::new(&mut w);
+	let ok1 = run_one(&mut out, &d1, via1, &pulled1);
 	assert!(out.used, "I3: the output is marked used by the first document, whatever its fate");
-	let ok1 = r1.is_ok();
-	core::mem::forget(r1);
-	let (n1, writes1, rendered1, pulls_model1) = (out.w.n, out.w.writes, unsafe { tm::RENDERED }, unsafe { tm::PULLED });
+	let (n1, writes1, rendered1) = (out.w.n, out.w.writes, unsafe { tm::RENDERED });
 	let good1 = d1.root == 4 && !has_null(&d1);
 	if !good1 {
 		assert!(!ok1 && n1 == 0 && writes1 == 0, "I3: a root that is not a table, a null anywhere, or a deserializer error is refused and nothing is written");
 		assert!(rendered1 == 0, "I3: nothing is rendered for a refused document");
+		kani::cover!(d1.root == 4 && d1.null_at == 1, "I3 null in the second entry refused");
+		kani::cover!(d1.root == 3, "I3 array root refused");
 	} else if ok1 {
-		assert!(writes1 <= d1.entries as usize + 1 && n1 == d1.entries as usize && !out.w.failed, "I3: exactly the rendering of the one document is written");
+		assert!(n1 == d1.entries as usize && !out.w.failed, "I3: exactly the rendering of the one document is written");
 		kani::cover!(d1.entries == 0, "I3 empty table writes nothing and succeeds");
 		kani::cover!(d1.entries == 2, "I3 table written");
 	} else {
 		assert!(out.w.failed || rendered1 == 1, "I3: a valid table fails only for a render or write error");
 	}
-	// second document / second input
-	let r2 = if via2 {
-		let v = as_value(&d2);
-		let r = crate::Output::transcode_value(&mut out, &v);
-		core::mem::forget(v);
-		r
-	} else {
-		crate::Output::transcode_from(&mut out, DocDe { d: d2, pulled: &pulled2 })
-	};
-	assert!(r2.is_err(), "I3: any second document or second input is refused");
+	core::mem::forget(out);
+}
+
+/// I3b: ANY second document or input - after a first one of any fate, including an EMPTY table that
+/// wrote zero bytes - is refused before anything is pulled from it, and nothing more is written.
+#[kani::proof]
+#[kani::unwind(5)]
+fn i3_toml_output_second() {
+	let mut w = LogW::new();
+	// first document: empty table, one-entry table, or a refused scalar root
+	let first = Doc { root: kani::any(), entries: kani::any(), null_at: 9 };
+	kani::assume((first.root == 4 && first.entries <= 1) || first.root == 2);
+	let d2 = any_doc();
+	let via2: bool = kani::any();
+	kani::assume(!via2 || d2.root != 5);
+	let pulled1 = Cell::new(0u32);
+	let pulled2 = Cell::new(0u32);
+	let mut out = Output::new(&mut w);
+	let _ok1 = run_one(&mut out, &first, false, &pulled1);
+	let (n1, writes1, pulls_model1) = (out.w.n, out.w.writes, unsafe { tm::PULLED });
+	let ok2 = run_one(&mut out, &d2, via2, &pulled2);
+	assert!(!ok2, "I3: any second document or second input is refused");
 	assert!(pulled2.get() == 0 && unsafe { tm::PULLED } == pulls_model1, "I3: the second document is refused before anything is pulled from its deserializer / value");
 	assert!(out.w.n == n1 && out.w.writes == writes1, "I3: nothing is written for the refused second document");
-	core::mem::forget(r2);
+	kani::cover!(first.root == 4 && first.entries == 0 && d2.root == 4 && !has_null(&d2), "I3 valid table after an empty table is refused");
 	core::mem::forget(out);
 }
 
